@@ -51,6 +51,60 @@ CHECKS.update({
    ref="5/C18, 3.3"),
 })
 
+CHECKS.update({
+ "C06": dict(level="exploration",
+   technique="exhaustive enumeration of filter parameter sets x boundary inputs x write/read chunkings x filter chains on the real encoders/decoders, judged by identity and by rebuilding the filter from its emitted name and parameter dictionary",
+   text="Flate/LZW/Compress over the full predictor x Colors x BitsPerComponent x Columns x EarlyChange x version grid (validation decides membership) with all short rows over a 5-byte alphabet and boundary patterns, LZW at every code-width boundary, ASCII85/ASCIIHex/RunLength over all short strings and boundary lengths, CCITTFax over K x EndOfLine x EncodedByteAlign x BlackIs1 x EndOfBlock x Rows x Columns with all small bitmaps and long-run patterns, all filter chains up to length 3 through Writer.OpenStream, every split into <=3 writes and small read buffers; Info followed by MakeFilter must reproduce the parameters.",
+   note="bounded alphabets as listed in notes/C06.md; parameter sets the validation rejects are pruned", ref="5/C06"),
+ "C07": dict(level="exploration",
+   technique="same exhaustive input/parameter enumeration as C06, differential against independent codecs in both directions",
+   text="Library encoder -> independent decoder and independent encoder -> library decoder for Flate (compress/zlib), LZW both EarlyChange values (ref/codecs, cross-checked against compress/lzw and x/image/tiff/lzw), ASCII85 (encoding/ascii85), ASCIIHex, RunLength and PNG/TIFF predictors (ref/codecs, cross-checked against image/png and x/image/tiff), CCITTFax Group 3 1-D and Group 4 (x/image/ccitt as decoder only).",
+   note="trusts the stdlib / x/image codecs and ref/codecs (self-tested at start-up); no independent CCITT encoder exists offline", ref="5/C07"),
+ "C10": dict(level="exploration",
+   technique="exhaustive enumeration of password pairs x versions x metadata modes x IDs x permission sets x object graphs x (number, generation) pairs; judged by an independent standard security handler in both directions plus leakage/IV invariants",
+   text="Every produced file is authenticated with user and owner password by ref/stdsec, its /O /U /OE /UE /Perms /P /R /V /Length /CF entries are validated, every string and stream found by ref/pdffile is decrypted and compared with what was written; files created by ref/stdsec (R2-R6) must open in the Reader; 24-byte plaintext markers must not occur in the raw file outside the documented exemptions; equal plaintexts give different ciphertexts; all AES IVs in a file are pairwise distinct and non-zero.",
+   note="trusts ref/stdsec (ISO 32000-2 7.6, self-tested) and ref/pdffile; both the letter and the de-facto reading of Algorithm 3(c) for R3 keys <128 bit are accepted; object number 2^24-1 only in the reference->Reader direction", ref="5/C10"),
+ "C11": dict(level="model_checking",
+   technique="explicit-state breadth-first search over Copier call sequences per source graph and configuration, every history executed from scratch on the real Writer/Reader/Copier, judged by a graph-isomorphism oracle",
+   text="All source graphs on <=3 indirect objects of the value kinds of the design (scalars, empty and small containers, plain/Flate streams with indirect Length/Filter/DecodeParms, reference chains, cycles, dangling and free references) x all programs of <=3 calls from {Copy, CopyReference, Redirect} x source/target encryption and version pairs (covered by factors, see notes/C11.md); oracle: bisimulation of the reachable sub-graphs, translation is a function and injective, each object copied once, Redirect honoured, termination.",
+   note="state key = the copier's translation table plus requested redirects; AES-256 pairs on 1-2 object graphs only; the oracle is self-tested against a reference copier and 19 planted flaws", ref="5/C11"),
+ "C12": dict(level="exploration",
+   technique="exhaustive enumeration of code space range sets over boundary alphabets x all byte strings over the induced partition, judged by an independent oracle written from ISO 32000-2 9.7.6",
+   text="All sets of <=3 ranges from the 1- and 2-byte boundary lists, all sets of <=2 ranges mixing 1-4 bytes (thorough: 3-sets containing 3- and 4-byte ranges), validity decided by the oracle and compared with NewCodec; for each valid set every string of <=4 bytes over cell representatives and edges plus all proper prefixes: classification, consumed length, AppendCode/Decode inverses, CodeSpaceRange describes the same codes.",
+   note="trusts ref/codespace (self-tested against a list-of-codes formulation); where the specification is silent (input shorter than the prescribed length) any consumed count in 1..available is accepted", ref="5/C12"),
+ "C13": dict(level="exploration",
+   technique="exhaustive enumeration of finite code->CID and code->text maps on boundary windows x code spaces x parent chains, executed on the real CMap construction, embedding and extraction, judged against the Go map",
+   text="All 7^6 CID maps and all 10^5 ToUnicode maps per window (inside a last-byte run, across the xxFE|xxFF|yy00 boundary, 1-byte edges, mixed code lengths, double boundary) over 4 code spaces and parent chains of length 0-2; lookups, enumeration and Embed -> reopen -> Extract (one file per distinct structural form, versions x pretty/compressed, WMode) must agree with the map wherever entries do not overlap.",
+   note="the Go map is the model; overlapping hand-built entries are compared only on codes covered by one entry (statement's own exclusion)", ref="5/C13"),
+ "C14": dict(level="exploration",
+   technique="exhaustive enumeration of short strings x fonts x versions x interleavings of Layout/Encode calls, executed through embedding, file round trip and font extraction",
+   text="59 fonts (18 fonttypes kinds, 12 Go fonts simple and composite, 14 standard fonts, 3 composite encoder variants) x all strings of length <=3 over a 9-character repertoire x 4 versions, all interleavings of two Layout+Encode calls over 60 font pairs, fill-up to the 256-code limit in three orders, one glyph under several texts; after reopening, the extracted font must decode each PDF string into as many codes as glyphs shown, with the font's advance widths (1/1000 em) and the glyphs' text, agree with writer-side decoding, and never share a code between distinct (glyph,text) pairs.",
+   note="fonts shipped in internal/fonttypes, gofont and standard only; widths compared with font geometry, not kerned advances", ref="5/C14"),
+ "C15": dict(level="model_checking",
+   technique="exhaustive enumeration of operator/operand sequences through the content writer and scanner, plus explicit-state BFS over Builder call sequences judged by an independent Figure-9 automaton",
+   text="80 operator names x 4639 operand tuples, all 80^2 x 15^2 adjacency pairs, all 80^3 triples, ~20k inline-image data strings x dictionaries, every split into 1-3 streams at operator boundaries and 1-byte chunked reading; Builder: BFS over 37 calls to depth 6 (1.7) / 5 (2.0) with state key = library graphics-object state; every Builder output is re-scanned and must be accepted by ref automaton for ISO 32000 Figure 9 and be balanced for q/Q, BT/ET, BMC|BDC/EMC.",
+   note="operand alphabets as in notes/C15.md; image data under an ASCII first filter compared modulo white space (8.9.7)", ref="5/C15"),
+ "C17": dict(level="exploration",
+   technique="exhaustive enumeration of key subsets and boundary sizes, executed on the real tree writer and both readers, judged against a sorted Go map and a structural validator",
+   text="All 2^14 (quick) / 2^21 (thorough) subsets of the byte-string universe of length <=2 over {NUL,a,b,FF}, all subsets of 6 extreme integers, every size across the 64/4096/262144 boundaries with plain, shared-prefix and non-ASCII keys, through Write, WriteMap and InMemory.Embed; lookups for every key of the universe, ordered enumeration, Size, streaming vs in-memory agreement, empty map, and the raw node structure (sorted keys, Limits, root without Limits, fan-out <=64).",
+   note="the sorted Go map is the model; the structure judge is self-tested on 15 one-defect variants", ref="5/C17"),
+ "C20": dict(level="fault_enumeration",
+   technique="exhaustive crash-point enumeration: every truncation offset and every single cross-reference damage of every document of a bounded program space, scanned by the real SequentialScan and judged against object spans from the independent reader",
+   text="Documents = all write programs (no object streams) of the plan; for each, EVERY prefix 0..len and every xref damage (keyword, table lines, whole table, trailer, startxref keyword/number/value, %%EOF, xref-stream header/dictionary/body x space/'x'/NUL) is scanned: no failure when >=1 object is complete, every complete object listed at its true offset, not broken, read back equal; incomplete objects broken or absent.",
+   note="object spans and values from ref/pdffile; stream data judged only when /Length is available in the remaining bytes; MakeReader results recorded but not judged (not in the statement); unencrypted documents", ref="5/C20"),
+})
+
+CHECKS.update({
+ "C16": dict(level="model_checking",
+   technique="explicit-state breadth-first search over page-tree writer operation histories (successor = replay on a fresh writer plus one operation), oracle on every history, state key = reference-model state plus abstracted heap dump of the real writer",
+   text="Profiles ranges-callbacks, attributes, merge-shapes, mixed, deep and a fixed very-deep list: all histories over {AppendPageDict, AppendPage, macro appends of 15/16/17/255/256/257 pages, NewRange, Close of any open range, NextPageNumber, root Close} within each profile's bound (up to length 7), <=3 nested open ranges, attributes from small MediaBox/CropBox/Rotate/Resources sets; after closing and reopening: page order, NumPages/GetPage/iterator, /Count, /Parent, fan-out <=16, no page reachable twice, effective inherited attributes, every NextPageNumber callback fired once with the final position.",
+   note="state key reads the writer's internals through a verif-tagged accessor (self-tested at start-up); trees up to 65537 pages only through macro appends; AppendPage with nil Resources may yield an empty resource dictionary", ref="5/C16"),
+ "C19": dict(level="fault_enumeration",
+   technique="exhaustive fault enumeration: every index k of a ReadAt call (x fail-from-k / fail-only-k / short-read-then-fail x two error kinds) of every document x scenario, and every index k of a sink Write/Seek call of every write program; each API result compared with the fault-free run; hang watchdog",
+   text="12 (quick) / 16 (thorough) generated documents (classic table, xref stream + object streams, human-readable, Flate+PNG-Up / ASCII85 over Flate / LZW, RC4-128, AES-128, AES-256) x scenarios {NewReader in 3 error-handling modes + Get of every object + DecodeStream in several chunk sizes, SequentialScan + MakeReader + the same walk}; write side: all write programs of the plan with large incompressible bodies on seekable and write-only sinks. A call must return the fault-free value or an error that carries the injected error and is not IsMalformed; a failing sink must surface from some Writer call up to Close; no call may hang (20 s watchdog, confirmed twice).",
+   note="in-memory source/sink wrappers own every I/O call; values compared through a canonical rendering; data delivered before a stream read error must be a prefix of the real data", ref="5/C19"),
+})
+
 NOT_YET = {}
 
 def main():
